@@ -810,8 +810,9 @@ class TagAttributes(MutableMapping):
 
     def __setitem__(self, item: AttributeAccessor, value: str | Attribute):
         qualified_name = self.__resolve_accessor(item)
-        self._validate_name(*qualified_name)
         key = self._etree_key(qualified_name)
+        # validates what is going to be stored, a local name may hold Clark notation
+        self._validate_name(*deconstruct_clark_notation(key))
         if isinstance(value, Attribute):
             value = value.value
         self._etree_attrib[key] = value
@@ -824,7 +825,7 @@ class TagAttributes(MutableMapping):
     __repr__ = __str__
 
     @staticmethod
-    def _validate_name(namespace: str, name: str):
+    def _validate_name(namespace: Optional[str], name: str):
         # https://www.w3.org/TR/xml-names/#xmlReserved
         if name == "xmlns" or namespace == XMLNS_NAMESPACE:
             raise ValueError("`xmlns` is reserved for namespace declarations.")
